@@ -231,7 +231,16 @@ def genExhaustive (emit : String → IO Unit) (maxLen k : Nat) (nest : Bool) : I
 /-- one random operation on the copy machine's current state (mostly in range) -/
 def randOp (r : Rng) (st : ASys) (alphaBytes : Bytes) : Op × Rng :=
   let nsl := st.views.length
-  let (i, r) := r.nat (nsl + 1)                 -- occasionally a dead / non-existent slot
+  -- slot: mostly the newest live buffer, sometimes any slot, occasionally a dead / non-existent one
+  let liveSlots := (List.range nsl).filter fun j => (st.get j).isSome
+  let (c0, r) := r.nat 10
+  let (i, r) :=
+    if c0 < 6 && !liveSlots.isEmpty then (liveSlots.getLast?.getD 0, r)
+    else if c0 < 9 && !liveSlots.isEmpty then r.pick liveSlots
+    else if c0 == 9 && !liveSlots.isEmpty then
+      let (c1, r) := r.nat 4
+      if c1 == 0 then r.nat (nsl + 1) else r.pick liveSlots
+    else r.nat (nsl + 1)
   let n := match st.get i with | some a => a.win.length | none => 3
   let cur := match st.get i with | some a => a.cur | none => 0
   let win := match st.get i with | some a => a.win | none => []
@@ -261,7 +270,9 @@ def randOp (r : Rng) (st : ASys) (alphaBytes : Bytes) : Op × Rng :=
     let (c, r) := r.nat 3
     (.view i s (if c == 0 then k else if s ≤ n then (n - s) - (k % (n - s + 1)) else k), r)
   else if kind < 12 then let (s, r) := num r; (.viewFrom i s, r)
-  else if kind < 17 then (.release i, r)
+  else if kind < 16 then
+    let (c, r) := r.nat 10
+    if liveSlots.length > 1 || c == 0 then (.release i, r) else (.meth i .peek, r)
   else if kind < 19 then let (l, r) := r.nat 6; let (bs, r) := Rng.bytes l r; (.new (bs.map fun x => 0x61 + x % 3), r)
   else if kind < 27 then
     let (c, r) := r.nat 4
@@ -271,14 +282,27 @@ def randOp (r : Rng) (st : ASys) (alphaBytes : Bytes) : Op × Rng :=
   else if kind < 44 then (.meth i .incr, r)
   else if kind < 48 then (.meth i .decr, r)
   else if kind < 50 then let (k, r) := num r; (.meth i (.checkCursor k), r)
-  else if kind < 52 then let (k, r) := num r; (.meth i (.setCursorU k), r)
-  else if kind < 53 then (.meth i .incrU, r)
-  else if kind < 54 then (.meth i .decrU, r)
+  else if kind < 52 then
+    let (c, r) := r.nat 12
+    if c == 0 then let (k, r) := num r; (.meth i (.setCursorU k), r)
+    else let (k, r) := r.nat (n + 1); (.meth i (.setCursorU k), r)
+  else if kind < 53 then
+    let (c, r) := r.nat 8
+    if cur < n || c == 0 then (.meth i .incrU, r) else (.meth i .decr, r)
+  else if kind < 54 then
+    let (c, r) := r.nat 8
+    if cur > 0 || c == 0 then (.meth i .decrU, r) else (.meth i .incr, r)
   else if kind < 58 then let (t, r) := tag r; (.meth i (.checkPrefix t), r)
   else if kind < 63 then let (t, r) := tag r; (.meth i (.allowed t), r)
   else if kind < 68 then let (t, r) := tag r; (.meth i (.until_ t), r)
-  else if kind < 76 then let (t, r) := tag r; (.meth i (.scan t), r)
-  else if kind < 84 then let (t, r) := tag r; (.meth i (.bscan t), r)
+  else if kind < 76 then
+    let (t, r) := tag r
+    let (c, r) := r.nat 8
+    if t.isEmpty && c != 0 then (.meth i (.scan (win.take 1)), r) else (.meth i (.scan t), r)
+  else if kind < 84 then
+    let (t, r) := tag r
+    let (c, r) := r.nat 8
+    if t.isEmpty && c != 0 then (.meth i (.bscan (win.take 1)), r) else (.meth i (.bscan t), r)
   else if kind < 89 then let (t, r) := tag r; (.meth i (.exact t), r)
   else if kind < 95 then let (k, r) := num r; (.meth i (.extract k), r)
   else if kind < 96 then (.meth i .peek, r)
@@ -300,11 +324,29 @@ def genRandom (emit : String → IO Unit) (seed n : Nat) : IO Unit := do
     r := r5
     let mut st := ASys.init b
     let mut ops : List Op := []
+    -- prologue: a chain of 0..3 nested views (often with start > 0), parents released half of the time
+    let (depth, r6) := r.nat 4
+    r := r6
+    for d in List.range depth do
+      let n := match st.get d with | some a => a.win.length | none => 0
+      let (s0, r') := r.nat (n / 3 + 1)
+      let (cut, r'') := r'.nat (n / 4 + 1)
+      r := r''
+      let op := Op.view d s0 (n - s0 - cut)
+      ops := op :: ops
+      st := (astep st op).2
+    let (relc, r7) := r.nat 2
+    r := r7
+    if relc == 1 then
+      for d in List.range depth do
+        let op := Op.release d
+        ops := op :: ops
+        st := (astep st op).2
     for _ in List.range (nops + 1) do
       let (op, r') := randOp r st alpha
       r := r'
       let (res, st') := astep st op
-      -- do not generate past a panic (the run would stop there anyway), except as the last op
+      -- do not generate past a panic (the run stops there anyway)
       ops := op :: ops
       st := st'
       if res.isPanic then break
